@@ -114,22 +114,22 @@ type Divergence struct {
 
 // Result is what an engine run reports to bin/check.
 type Result struct {
-	Engine            string         `json:"engine"`
-	Seed              uint64         `json:"seed"`
-	Tier              string         `json:"tier"`
-	Cases             int            `json:"cases"`
-	Ops               int            `json:"ops"`
-	DistinctNonTriv   int            `json:"distinct_nontrivial"`
-	Rule              string         `json:"rule"`
-	OpHist            map[string]int `json:"op_hist"`
-	OutHist           map[string]int `json:"out_hist"`
-	Samples           []Divergence   `json:"samples"`
-	ModelDivergences  []Divergence   `json:"model_divergences"`
-	SpecViolations    []Divergence   `json:"spec_violations"`
-	Notes             []string       `json:"notes,omitempty"`
-	ExcludedPoints    []string       `json:"excluded_points,omitempty"`
-	WallS             float64        `json:"wall_s"`
-	Extra             map[string]any `json:"extra,omitempty"`
+	Engine           string         `json:"engine"`
+	Seed             uint64         `json:"seed"`
+	Tier             string         `json:"tier"`
+	Cases            int            `json:"cases"`
+	Ops              int            `json:"ops"`
+	DistinctNonTriv  int            `json:"distinct_nontrivial"`
+	Rule             string         `json:"rule"`
+	OpHist           map[string]int `json:"op_hist"`
+	OutHist          map[string]int `json:"out_hist"`
+	Samples          []Divergence   `json:"samples"`
+	ModelDivergences []Divergence   `json:"model_divergences"`
+	SpecViolations   []Divergence   `json:"spec_violations"`
+	Notes            []string       `json:"notes,omitempty"`
+	ExcludedPoints   []string       `json:"excluded_points,omitempty"`
+	WallS            float64        `json:"wall_s"`
+	Extra            map[string]any `json:"extra,omitempty"`
 }
 
 var driverPath = "/verif/lean/.lake/build/bin/driver"
